@@ -12,7 +12,10 @@ COQ_TARGETS = ["theories/Properties/C24.vo"]
 PROPERTY_FILES = ["theories/Properties/C24.v"]
 RULE = ("directories of 9-12 generated files (clean, fixable, unfixable, unparsable, templated, large) linted and fixed through the real CLI "
         "with processes in {1,2,4,8}, worker delays injected per file (reverse / random patterns, sitecustomize in the spawned workers) and "
-        "permuted path lists; compared with the serial run: per-file violations, fixed file contents, exit code. "
+        "permuted path lists; compared with the serial run: per-file violations, fixed file contents, exit code; the same on a PROJECT tree "
+        "(jinja templater, nested .sqlfluff files changing rules / exclude_rules / rule options / jinja context, a library_path with filters "
+        "and functions, a macro path, inline `-- sqlfluff:` directives; sibling directories using the same filter / function / macro names "
+        "without the library) with directory and file path lists in sorted, reversed and shuffled order for processes 1, 2 and 4. "
         "non-trivial = a parallel run whose worker completion order differs from submission order; distinct = distinct (dir, processes, delays, path order)")
 ASSUMPTIONS = ["multiprocessing delivers each task's result exactly once", "files given are distinct", "no violation is `fatal` (no bundled code sets it)"]
 TRUSTED_BASE = ["hand model Model/Runner.v of the aggregation; process-level nondeterminism itself is exercised, not modelled"]
@@ -32,43 +35,125 @@ FILES = {
 CFG = "[sqlfluff]\ndialect = ansi\ntemplater = jinja\nrules = LT01,CP01,AM01,LT02\n"
 
 
-def make_tree(d):
-    for n, t in FILES.items():
+# A project whose files are governed by DIFFERENT effective configurations: whatever process lints a file, and whatever it linted before,
+# the file's own configuration (root + nested .sqlfluff + inline directives) alone decides its result.
+LIB_PY = '''"""Project jinja helpers."""
+
+
+def quote_ident(value):
+    return '"' + str(value) + '"'
+
+
+def shout(value):
+    return str(value).upper()
+
+
+def tbl(name):
+    return "warehouse." + name
+
+
+SQLFLUFF_JINJA_FILTERS = {"quote_ident": quote_ident, "shout": shout}
+'''
+PROJECT = {
+    ".sqlfluff": "[sqlfluff]\ndialect = ansi\ntemplater = jinja\nrules = LT01,CP01,CP02,LT09,AM01,AL01\n"
+                 "[sqlfluff:rules:capitalisation.keywords]\ncapitalisation_policy = upper\n"
+                 "[sqlfluff:templater:jinja:context]\nschema_name = analytics\n",
+    "core/c1.sql": "select a,b from {{ schema_name }}.t1\n",
+    "core/c2.sql": "SELECT a  FROM t2 x\n",
+    "core/c3.sql": "SELECT DISTINCT a from b GROUP BY a\n",
+    "adhoc/q1.sql": "SELECT a,b FROM {{ 'scratch' | quote_ident }}\n",
+    "adhoc/q2.sql": "SELECT d  FROM plain_table\n",
+    "adhoc/q3.sql": "SELECT {{ cols(2) }}  from t\n",
+    "adhoc/q4.sql": "SELECT a  from {{ tbl('x') }}\n",
+    "legacy/.sqlfluff": "[sqlfluff]\nexclude_rules = LT09,AL01\n[sqlfluff:rules:capitalisation.keywords]\ncapitalisation_policy = lower\n",
+    "legacy/l1.sql": "SELECT a,b from T1 x\n",
+    "legacy/l2.sql": "select a  FROM {{ schema_name }}.t2\n",
+    "legacy/deep/.sqlfluff": "[sqlfluff]\nrules = CP01,CP02\n[sqlfluff:rules:capitalisation.identifiers]\nextended_capitalisation_policy = upper\n",
+    "legacy/deep/d1.sql": "SELECT Col_a,col_b from Tbl x\n",
+    "macros/.sqlfluff": "[sqlfluff:templater:jinja]\nload_macros_from_path = defs\n[sqlfluff:templater:jinja:context]\nschema_name = staging\n",
+    "macros/defs/m.sql": "{% macro cols(n) %}{% for i in range(n) %}c{{ i }}{% if not loop.last %},{% endif %}{% endfor %}{% endmacro %}\n",
+    "macros/u1.sql": "SELECT {{ cols(3) }}  from {{ schema_name }}.t\n",
+    "reports/.sqlfluff": "[sqlfluff]\nexclude_rules = CP02\n[sqlfluff:templater:jinja]\nlibrary_path = libs\n",
+    "reports/libs/__init__.py": LIB_PY,
+    "reports/r1.sql": "SELECT a,b FROM {{ 'sales' | quote_ident }}\n",
+    "reports/r2.sql": "SELECT c  FROM {{ tbl('stock') }} where d = '{{ 'x' | shout }}'\n",
+    "strict/.sqlfluff": "[sqlfluff]\nrules = CP01,CP02,LT01,LT09\n[sqlfluff:rules:capitalisation.identifiers]\nextended_capitalisation_policy = upper\n"
+                        "[sqlfluff:rules:layout.select_targets]\nwildcard_policy = multiple\n",
+    "strict/s1.sql": "SELECT Col_a, col_b FROM Tbl\n",
+    "strict/s2.sql": "select *\nfrom Tbl\n",
+    "inline/i1.sql": "-- sqlfluff:rules:CP01\nselect a,b from t x\n",
+    "inline/i2.sql": "-- sqlfluff:exclude_rules:LT09,LT01\nSELECT a,b  from t\n",
+    "inline/i3.sql": "-- sqlfluff:rules:capitalisation.keywords:capitalisation_policy:lower\nSELECT a from t\n",
+    "zz_adhoc/z1.sql": "SELECT e,f FROM {{ 'late' | quote_ident }}\n",
+    "zz_adhoc/z2.sql": "SELECT {{ cols(2) }}  from {{ tbl('y') }}\n",
+}
+TREES = {"flat": dict(FILES, **{".sqlfluff": CFG}), "project": PROJECT}
+
+
+def make_tree(d, tree="flat"):
+    for n, t in TREES[tree].items():
         p = os.path.join(d, n)
         os.makedirs(os.path.dirname(p), exist_ok=True)
         with open(p, "w") as f:
             f.write(t)
-    with open(os.path.join(d, ".sqlfluff"), "w") as f:
-        f.write(CFG)
 
 
-def snapshot(d):
-    return {n: open(os.path.join(d, n)).read() for n in FILES}
+def snapshot(d, tree="flat"):
+    return {n: open(os.path.join(d, n)).read() for n in TREES[tree]}
 
 
 def one_run(args):
-    mode, processes, delays, paths = args
+    tree, mode, processes, delays, paths = args
     base = os.environ.get("TMPDIR") or "/var/tmp"
     d = tempfile.mkdtemp(prefix="verif-c24-", dir=base)
     try:
-        make_tree(d)
+        make_tree(d, tree)
         trace = os.path.join(d, "trace.log")
         if mode == "lint":
             rc, out, err = pathrun.cli(["lint"] + paths + ["--format", "json", "--processes", str(processes)], cwd=d, trace=trace, delays=delays)
             try:
                 data = json.loads(out)
-                recs = sorted((r["filepath"], sorted((v["code"], v["start_line_no"], v["start_line_pos"]) for v in r["violations"])) for r in data)
+                recs = sorted((r["filepath"], sorted((v["code"], v["start_line_no"], v["start_line_pos"], v["description"], bool(v.get("warning")))
+                                                     for v in r["violations"])) for r in data)
             except Exception:
                 recs = "unparseable: " + (out + err)[-300:]
             res = {"exit": rc, "records": recs}
         else:
             rc, out, err = pathrun.cli([mode] + paths + ["--processes", str(processes)], cwd=d, trace=trace, delays=delays)
-            res = {"exit": rc, "files": snapshot(d), "extra": sorted(set(f for _, _, fs in os.walk(d) for f in fs) - set(os.path.basename(n) for n in FILES) - {".sqlfluff", "trace.log"})}
+            known = set(os.path.basename(n) for n in TREES[tree]) | {"trace.log"}
+            res = {"exit": rc, "files": snapshot(d, tree),
+                   "extra": sorted(f for _, _, fs in os.walk(d) for f in fs if f not in known and not f.endswith(".pyc"))}
         order = [t[2] for t in pathrun.read_trace(trace) if t[0] == "lint"]
         res["completion_order"] = order
         return res
     finally:
         shutil.rmtree(d, ignore_errors=True)
+
+
+def project_runs(ctx):
+    """Schedules for the project tree: directory lists and file lists in sorted / reversed / shuffled order x processes 1, 2, 4."""
+    rng = ctx.rng
+    sqls = sorted(n for n in PROJECT if n.endswith(".sql"))
+    dirs = sorted({n.split("/")[0] for n in sqls})
+    rdirs = list(reversed(dirs))
+    sdirs = list(dirs)
+    rng.shuffle(sdirs)
+    sfiles = list(sqls)
+    rng.shuffle(sfiles)
+    rev = {os.path.basename(n): 0.03 * (len(sqls) - i) for i, n in enumerate(sqls)}
+    rnd = {os.path.basename(n): rng.choice([0, 0, 0.1, 0.3]) for n in sqls}
+    runs = [("project", "lint", 1, None, ["."]), ("project", "fix", 1, None, ["."]),
+            ("project", "lint", 1, None, rdirs), ("project", "lint", 1, None, sdirs), ("project", "lint", 1, None, sfiles),
+            ("project", "lint", 2, rev, ["."]), ("project", "lint", 4, rnd, rdirs), ("project", "lint", 2, rnd, sfiles),
+            ("project", "fix", 1, None, rdirs), ("project", "fix", 2, rev, ["."]), ("project", "fix", 4, rnd, sfiles)]
+    if ctx.tier == "thorough":
+        runs += [("project", "fix", 1, None, sdirs), ("project", "format", 1, None, ["."]), ("project", "format", 2, rnd, rdirs)]
+        for _ in range(6):
+            p2 = list(rng.choice([dirs, sqls]))
+            rng.shuffle(p2)
+            r2 = {os.path.basename(n): rng.choice([0, 0.05, 0.2, 0.5]) for n in sqls}
+            runs.append(("project", rng.choice(["lint", "fix"]), rng.choice([1, 1, 2, 3, 4]), r2, p2))
+    return runs
 
 
 def run(ctx, coq_ok):
@@ -96,38 +181,63 @@ def run(ctx, coq_ok):
             ctx.rng.shuffle(p2)
             runs.append(("lint", ctx.rng.choice([2, 3, 8]), r2, p2))
             runs.append(("fix", ctx.rng.choice([2, 3, 8]), r2, ["."]))
+    runs = [("flat",) + r for r in runs] + project_runs(ctx)
     with ThreadPoolExecutor(max_workers=4) as ex:
         results = list(ex.map(one_run, runs))
     ref = {}
     for r, res in zip(runs, results):
-        mode = r[0]
-        if r[1] == 1 and r[3] == ["."]:
-            ref[mode] = res
-    sub_order = [os.path.basename(n) for n in names]
+        if r[2] == 1 and r[4] == ["."]:
+            ref[r[0], r[1]] = res
+    sub_orders = {t: [os.path.basename(n) for n in sorted(TREES[t]) if n.endswith(".sql")] for t in TREES}
     for r, res in zip(runs, results):
-        mode, p, delays, paths = r
+        tree, mode, p, delays, paths = r
         order = res.get("completion_order", [])
-        reordered = p > 1 and order != [o for o in sub_order if o in order]
-        ctx.case((mode, p, json.dumps(delays, sort_keys=True), tuple(paths)) if (reordered or paths != ["."]) else None,
-                 bucket="%s,p=%d" % (mode, p),
-                 sample={"mode": mode, "processes": p, "paths": paths, "completion_order": order, "exit": res["exit"]} if reordered else None)
-        base = ref[mode]
-        inp = {"mode": mode, "processes": p, "delays": delays, "paths": paths, "files": "harness/props/c24.py FILES"}
+        reordered = p > 1 and order != [o for o in sub_orders[tree] if o in order]
+        ctx.case((tree, mode, p, json.dumps(delays, sort_keys=True), tuple(paths)) if (reordered or paths != ["."]) else None,
+                 bucket="%s,%s,p=%d" % (tree, mode, p),
+                 sample={"tree": tree, "mode": mode, "processes": p, "paths": paths, "completion_order": order, "exit": res["exit"]} if reordered else None)
+        base = ref[tree, mode]
+        inp = {"tree": tree, "mode": mode, "processes": p, "delays": delays, "paths": paths,
+               "files": "harness/props/c24.py %s" % ("FILES + CFG" if tree == "flat" else "PROJECT")}
+        attrs = {"tree": tree}
 
         def norm(recs):
             # paths may be spelled './x' or 'x' depending on how they were given
             return sorted((os.path.normpath(a), b) for a, b in recs) if isinstance(recs, list) else recs
         if mode == "lint":
             if norm(res["records"]) != norm(base["records"]):
-                ctx.violation("parallel-violations-differ", "per-file violations differ from the serial run", {"input": inp, "got": res["records"], "serial": base["records"]})
+                got, ser = norm(res["records"]), norm(base["records"])
+                if isinstance(got, list) and isinstance(ser, list):
+                    gd, sd = dict(got), dict(ser)
+                    diff = {f: {"this_run": gd.get(f), "serial": sd.get(f)} for f in sorted(set(gd) | set(sd)) if gd.get(f) != sd.get(f)}
+                else:
+                    diff = {"this_run": got, "serial": ser}
+                ctx.violation("parallel-violations-differ", "per-file violations differ from the serial run over '.' (processes=%d, paths %s)" % (
+                    p, "as given by the directory walk" if paths == ["."] else "permuted"), {"input": inp, "differing_files": diff}, attrs=attrs)
         else:
             if res["files"] != base["files"]:
-                diff = {n: [res["files"][n], base["files"][n]] for n in FILES if res["files"][n] != base["files"][n]}
-                ctx.violation("parallel-fixed-files-differ", "fixed file contents differ from the serial run", {"input": inp, "diff": diff})
+                diff = {n: [res["files"][n], base["files"][n]] for n in TREES[tree] if res["files"][n] != base["files"][n]}
+                ctx.violation("parallel-fixed-files-differ", "fixed file contents differ from the serial run", {"input": inp, "diff": diff}, attrs=attrs)
             if res["extra"]:
-                ctx.violation("parallel-extra-files", "unexpected files left behind", {"input": inp, "extra": res["extra"]})
+                ctx.violation("parallel-extra-files", "unexpected files left behind", {"input": inp, "extra": res["extra"]}, attrs=attrs)
         if res["exit"] != base["exit"]:
-            ctx.violation("parallel-exit-differs", "exit code %d differs from the serial run's %d" % (res["exit"], base["exit"]), {"input": inp})
+            ctx.violation("parallel-exit-differs", "exit code %d differs from the serial run's %d" % (res["exit"], base["exit"]), {"input": inp}, attrs=attrs)
+    # the project tree must really exercise what it is there for: some file of every directory reports something, the files that use a
+    # filter / function / macro their own configuration does not provide fail to template in the serial reference
+    pref = ref["project", "lint"]["records"]
+    if isinstance(pref, list):
+        byf = {os.path.normpath(a): b for a, b in pref}
+        for f in ("adhoc/q1.sql", "adhoc/q3.sql", "adhoc/q4.sql", "zz_adhoc/z1.sql", "zz_adhoc/z2.sql"):
+            if not any(v[0] == "TMP" for v in byf.get(f, [])):
+                ctx.count("project-tree-unintended:%s" % f)
+        for f in ("reports/r1.sql", "reports/r2.sql", "macros/u1.sql"):
+            if any(v[0] == "TMP" for v in byf.get(f, [("TMP",)])):
+                ctx.count("project-tree-unintended:%s" % f)
+    else:
+        ctx.broken_obligation("harness: serial lint of the project tree gave no JSON", str(pref))
+    runs = [r[1:] for r in runs if r[0] == "flat"]
+    results = results[:len(runs)]
+    ref = {m: v for (t, m), v in ref.items() if t == "flat"}
     if not coq_ok:
         return
     # model: aggregate the serial per-file outcomes in the observed completion orders
